@@ -135,6 +135,17 @@ C04_RegionPreserved == IsOp("Merge") => RegionOf(last.res) = RegionOf(last.pre)
 C04_Exact == IsOp("Merge") => last.res = MergeDef(last.pre, last.a[1], last.a[2])
 C04_Idempotent == IsOp("Merge") =>
                     MergeImpl(last.res, last.a[1], last.a[2]) = last.res
+\* the step-by-step form (the exported building blocks) assembles to the same result
+C04_StepsAssemble == IsOp("Merge") =>
+   LET h == last.a[1]  v == last.a[2]  S == last.pre
+       E == {s \in S : Eligible(s, h, v)}
+       mh == SetMax({s[1] : s \in S} \cup {0})
+       mv == SetMax({s[4] : s \in S} \cup {0})
+       G == MergeSteps(E, h, v, mh, mv)
+       dense == {g[1] : g \in {x \in G : x[2]}}
+   IN  /\ {g[1] : g \in G} = {Ancestor(s, h, v) : s \in E}
+       /\ last.res = (S \ E) \cup dense \cup {s \in E : Ancestor(s, h, v) \notin dense}
+       /\ \A g \in G : g[2] <=> (Region(g[1]) \subseteq RegionOf(E))     \* dense = the group's inputs fill the ancestor
 Mirror(s) == <<s[1], s[2], s[3], s[4], -s[5] - 1>>
 C04_MirrorSymmetric == IsOp("Merge") =>
    MergeImpl({Mirror(s) : s \in last.pre}, last.a[1], last.a[2])
